@@ -29,7 +29,7 @@ man = {
     ],
     "checks": [],
     "not_applicable": [],
-    "notes": "Static analysis only. exit 0 = all rule instances discharged; exit 1 + VIOLATION = a rule instance positively refuted; exit 2 = ANALYSIS-ERROR/INCONCLUSIVE (never a verdict). Every check except C14 additionally runs the cross-cutting rules MEMO.1 / HAZ.1 / DECO.1 (rules/crosscut.py, DESIGN.md 15.5) over the functions reachable from the property's entry points. See DESIGN.md.",
+    "notes": "Static analysis only. exit 0 = all rule instances discharged; exit 1 + VIOLATION = a rule instance positively refuted; exit 2 = ANALYSIS-ERROR/INCONCLUSIVE (never a verdict). Every check except C14 additionally runs the cross-cutting rules MEMO.1 / HAZ.1 / HAZ.2 / HAZ.3 / DECO.1 and the shared load-side rules C10.2 / C07.1 / C15.1 (rules/crosscut.py, DESIGN.md 15.5) over the functions reachable from the property's entry points. See DESIGN.md.",
 }
 for p in props:
     if p in CHECKS:
